@@ -29,6 +29,7 @@ func init() {
 			{ID: "C02.R6", Floor: 20, Doc: "unmarshalIntlike masks equal the CQL width and fit the destination", Run: c02r6},
 			{ID: "C02.R7", Floor: 3, Doc: "nullable destinations: nil for null, fresh value otherwise", Run: c02r7},
 			{ID: "C02.R8", Floor: 1, Doc: "varint trimming: a leading byte is dropped only when it is 0x00 followed by a byte with the top bit clear, or 0xFF followed by a byte with the top bit set", Run: c02r8},
+			{ID: "C02.R9", Floor: 1, Doc: "the sign extension of a short varint subtracts exactly 2^(8*len)", Run: signExtendAmount},
 		},
 		Variants: []Variant{{Name: "linux/386", GOARCH: "386"}},
 	})
@@ -696,6 +697,24 @@ func c02r3(p *Program, r *Report) {
 				continue
 			}
 			seenW[v3] = true
+			// the value fits the width on this path: the conditions passed confine it to the field's range
+			{
+				wg := p.GraphOf(w)
+				f := Facts{m: map[string]bool{}, rel: map[string]relAtom{}, info: wi}
+				for _, c := range ap.Conds {
+					f.assume(c.Cond, c.Val)
+				}
+				limit := 65535
+				if v3 {
+					limit = 1<<31 - 1
+				}
+				fits := false
+				if np := paramObj(wi, w.Decl.Type, 1); np != nil {
+					d := newDBM(wg, f, nil)
+					fits = d.leExpr(ast.NewIdent(np.Name()), 0, &ast.BasicLit{Kind: token.INT, Value: fmtInt(limit)}, 0)
+				}
+				r.Check(fits, ap.Ret, "writeCollectionSize protocol "+ifs(v3, ">= 3", "<= 2")+": the size fits the field it is written into", "n <= "+fmtInt(limit)+" on this path", "a size that does not fit the "+ifs(v3, "4-byte signed", "2-byte")+" field is written truncated instead of being refused: the reader sees a shorter collection / element and decodes the rest as garbage")
+			}
 			nparam := paramObj(wi, w.Decl.Type, 1)
 			okVal := nparam != nil && enc.Value == nparam.Name()
 			r.Check(enc.BigEndian && enc.Width == width && okVal, ap.Ret, "writeCollectionSize protocol "+ifs(v3, ">= 3: 4 bytes big-endian", "<= 2: 2 bytes big-endian"), fmt.Sprintf("%d bytes of %s (%s)", enc.Width, enc.Value, enc.How), fmt.Sprintf("writes %d bytes of %s, big-endian=%v (%s), not the %d-byte big-endian size", enc.Width, enc.Value, enc.BigEndian, enc.How, width))
@@ -1865,4 +1884,99 @@ func foldedView(f Facts) map[string]bool {
 		}
 	}
 	return out
+}
+
+// signExtendAmount: a two's-complement number of L < 8 bytes with the top bit set is the unsigned value minus
+// 2^(8L). unmarshalVarint (and helpers) must subtract exactly that: the subtrahend, evaluated as a term over the
+// symbolic length L = len(data), equals 1 << (8*L).
+func signExtendAmount(p *Program, r *Report) {
+	fi := r.NeedFunc("unmarshalVarint")
+	if fi == nil {
+		return
+	}
+	n := 0
+	for _, u := range append([]*FuncInfo{fi}, p.privateCallees(fi)...) {
+		info := u.Pkg.TypesInfo
+		// the byte slice parameter
+		var dataObj types.Object
+		if u.Decl.Type.Params != nil {
+			for _, f := range u.Decl.Type.Params.List {
+				if isByteSlice(info.TypeOf(f.Type)) && len(f.Names) > 0 && dataObj == nil {
+					dataObj = info.Defs[f.Names[0]]
+				}
+			}
+		}
+		if dataObj == nil {
+			continue
+		}
+		ast.Inspect(u.Decl.Body, func(x ast.Node) bool {
+			as, ok := x.(*ast.AssignStmt)
+			if !ok || len(as.Lhs) != 1 || len(as.Rhs) != 1 {
+				return true
+			}
+			var amount ast.Expr
+			switch as.Tok {
+			case token.SUB_ASSIGN:
+				amount = as.Rhs[0]
+			case token.ASSIGN:
+				if b, isB := ast.Unparen(as.Rhs[0]).(*ast.BinaryExpr); isB && b.Op == token.SUB && exprStr(ast.Unparen(b.X)) == exprStr(as.Lhs[0]) {
+					amount = b.Y
+				}
+			}
+			if amount == nil {
+				return true
+			}
+			if t := info.TypeOf(as.Lhs[0]); t == nil || t.String() != "int64" {
+				return true
+			}
+			// only subtractions whose amount depends on the length of the data
+			dep := false
+			ast.Inspect(amount, func(y ast.Node) bool {
+				if id, isId := y.(*ast.Ident); isId {
+					if info.Uses[id] == dataObj {
+						dep = true
+					}
+					if d := localDefMulti(info, u, id); d != nil && strings.Contains(exprStr(d), "len("+dataObj.Name()+")") {
+						dep = true
+					}
+				}
+				return true
+			})
+			if !dep {
+				return true
+			}
+			n++
+			se := newSymEval(p)
+			L := tSym("L")
+			se.env[dataObj] = sval{kind: 's', base: dataObj.Name(), off: tConst(0), slen: L, typ: dataObj.Type()}
+			// locals the amount mentions (n := uint(len(data)))
+			ast.Inspect(amount, func(y ast.Node) bool {
+				if id, isId := y.(*ast.Ident); isId {
+					if obj := info.Uses[id]; obj != nil && obj != dataObj {
+						if _, bound := se.env[obj]; !bound {
+							if d := localDefMulti(info, u, id); d != nil && singleAssigned(info, u.Decl.Body, obj) {
+								v := se.eval(u, d)
+								if v.kind == 'i' {
+									se.env[obj] = se.convert(v, obj.Type())
+								}
+							}
+						}
+					}
+				}
+				return true
+			})
+			v := se.eval(u, amount)
+			want := mk("shl", tConst(1), mk("mul", L, tConst(8)))
+			if v.kind != 'i' || len(se.unsup) > 0 {
+				r.Unresolved("%s: the amount subtracted for the sign extension (%s) is not interpretable: %s", u.Name, exprStr(amount), strings.Join(se.unsup, "; "))
+				return true
+			}
+			r.Check(v.t.String() == want.String(), as, u.Name+": sign extension subtracts 2^(8*len)", v.t.String(),
+				"the sign extension subtracts "+v.t.String()+" (L = len("+dataObj.Name()+")) instead of "+want.String()+": negative values shorter than 8 bytes decode to wrong numbers")
+			return true
+		})
+	}
+	if n == 0 {
+		r.Unresolved("unmarshalVarint: no subtraction of a length-dependent amount (sign extension) found")
+	}
 }
